@@ -1157,18 +1157,31 @@ comparison operators and constants, branch order, every arithmetic expression, t
 `**` / `brentq` calls with their operands — into a prefix token list (`CBV.Gen.c03RelBodies`).  `relBodies` are the same
 bodies as trees of the model (`Stmt`), `run` is their semantics over exact rationals. -/
 
-/-- The trees the model holds are the source: their token encoding is the generated table, relation by relation in
-    the order of the relation table (and likewise the bodies of the four simple validators). -/
+/-- The trees the model holds are the source: the token encoding of each is the generated table of that relation (one
+    statement per relation; locals are compared up to renaming, comments / docstrings / annotations are not tokens). -/
+theorem T_C03_translated_source_c2c_count_end : encBody body_c2c_count_end = CBV.Gen.c03Body_c2c_expansion__count__end_size := body_c2c_count_end_source
+theorem T_C03_translated_source_c2c_count_start : encBody body_c2c_count_start = CBV.Gen.c03Body_c2c_expansion__count__start_size := body_c2c_count_start_source
+theorem T_C03_translated_source_c2c_count_total : encBody body_c2c_count_total = CBV.Gen.c03Body_c2c_expansion__count__total_expansion := body_c2c_count_total_source
+theorem T_C03_translated_source_count_end_c2c : encBody body_count_end_c2c = CBV.Gen.c03Body_count__end_size__c2c_expansion := body_count_end_c2c_source
+theorem T_C03_translated_source_count_start_c2c : encBody body_count_start_c2c = CBV.Gen.c03Body_count__start_size__c2c_expansion := body_count_start_c2c_source
+theorem T_C03_translated_source_count_total_c2c : encBody body_count_total_c2c = CBV.Gen.c03Body_count__total_expansion__c2c_expansion := body_count_total_c2c_source
+theorem T_C03_translated_source_count_total_start : encBody body_count_total_start = CBV.Gen.c03Body_count__total_expansion__start_size := body_count_total_start_source
+theorem T_C03_translated_source_end_start_total : encBody body_end_start_total = CBV.Gen.c03Body_end_size__start_size__total_expansion := body_end_start_total_source
+theorem T_C03_translated_source_start_count_c2c : encBody body_start_count_c2c = CBV.Gen.c03Body_start_size__count__c2c_expansion := body_start_count_c2c_source
+theorem T_C03_translated_source_start_end_total : encBody body_start_end_total = CBV.Gen.c03Body_start_size__end_size__total_expansion := body_start_end_total_source
+theorem T_C03_translated_source_total_count_c2c : encBody body_total_count_c2c = CBV.Gen.c03Body_total_expansion__count__c2c_expansion := body_total_count_c2c_source
+theorem T_C03_translated_source_total_start_end : encBody body_total_start_end = CBV.Gen.c03Body_total_expansion__start_size__end_size := body_total_start_end_source
+
+/-- every relation of the relation table has its tree, in table order; the bodies of the four simple validators -/
 theorem T_C03_translated_source :
-    relBodiesEnc = CBV.Gen.c03RelBodies ∧ relTable = some (relBodies.map (·.1)) ∧
-      validatorBodiesEnc = CBV.Gen.c03ValidatorBodies :=
-  ⟨relBodies_source, by decide, validatorBodies_source⟩
+    relTable = some (relBodies.map (·.1)) ∧ validatorBodiesEnc = CBV.Gen.c03ValidatorBodies :=
+  ⟨by decide, validatorBodies_source⟩
 
 /-- the bodies of `_validate_length`, `_validate_start_end_size`, `_validate_c2c_expansion`,
     `_validate_total_expansion` reject exactly `<= 0`, `<= 0`, `== 0`, `== 0` — what `validateSem` (the meaning of a
     validator call inside `run`) and the guards of the model functions implement -/
 theorem T_C03_translated_validators (P : Prims) (q : ℚ) :
-    validatorBodies.map (fun p => (p.1, run P (p.2.1.map (fun x => (x, LVal.num q))) (p.2.2 ++ [.ret (.lit 0)]))) =
+    validatorBodies.map (fun p => (p.1, run P [("v0", LVal.num q), ("v1", LVal.num q)] (p.2.2 ++ [.ret (.lit 0)]))) =
       [("_validate_length", if q ≤ 0 then .error .value else .ok 0),
        ("_validate_start_end_size", if q ≤ 0 then .error .value else .ok 0),
        ("_validate_c2c_expansion", if q = 0 then .error .value else .ok 0),
